@@ -112,6 +112,11 @@ class MutableShareFile:
         precondition(offset >= 0)
         precondition(length >= 0)
         data_length = self._read_data_length(f)
+        if self.DATA_OFFSET + data_length > self._read_extra_lease_offset(f):
+            # the share data always lies before the extra-lease block
+            raise struct.error(
+                "mutable share %r claims %d bytes of data, more than its container holds"
+                % (self.home, data_length))
         if offset+length > data_length:
             # reads beyond the end of the data are truncated. Reads that
             # start beyond the end of the data return an empty string.
